@@ -79,6 +79,11 @@ def signatures(rng, tier):
                 names = rng.sample(G.PLAIN, k)
                 names[pos] = r
                 sigs.append([(fill(sh, names), "u8"), (rng.choice(G.PLAIN) + "9", "Self")])
+    # several parameters destructuring the same struct with renamed fields: the flattened names come from the bound variables, not from the field names
+    for a, b, c, d in (("a", "b", "c", "x"), ("x1", "y1", "x2", "y2"), ("val", "key", "item", "n")):
+        sigs.append([("P { f0: %s, f1: %s }" % (a, b), "P"), ("P { f0: %s, f1: %s }" % (c, d), "P")])
+        sigs.append([("P { f0: %s, .. }" % a, "P"), ("f0", "u8"), ("P { f1: %s, .. }" % b, "P"), ("f1", "u8")])
+        sigs.append([("P { f0: mut %s, f1: ref %s }" % (a, b), "P"), ("T(%s, %s)" % (c, d), "T")])
     # random 0..5 parameter lists, some with unsupported patterns
     for i in range(300 if tier == "quick" else 6000):
         m = G.gen_method(rng, "f", "std", kind="stat", negative=("pattern" if rng.random() < 0.12 else None))
@@ -97,7 +102,7 @@ def flatten_tie(rep, rng):
         items = [("s%d" % k, G.MODEL_EXPR % G.coq_params(sigs[k])) for k in range(lo, min(lo + 1000, len(sigs)))]
         model.update(inst.coq_values("C07_flat_%d" % (lo // 1000), IMPORTS, items))
     rep.checker_cmds.append("coqc generated/C07_flat_*.v (Gen/Flatten.v live_args evaluated by vm_compute)")
-    bad = 0
+    bad, nfound = 0, 0
     for k, (ps, (cls, fields)) in enumerate(zip(sigs, real)):
         rep.evaluations += 1
         wcls, want = G.parse_coq_result(model["s%d" % k])
@@ -121,8 +126,6 @@ def flatten_tie(rep, rng):
         if ok:
             continue
         bad += 1
-        if bad > 5:
-            continue
         # oracle on the real output: one identifier per parameter, same position, same type, the user's name for identifier
         # patterns, identifiers pairwise distinct and not a generated binder; documented, non-colliding lists must be accepted
         probs = []
@@ -144,6 +147,9 @@ def flatten_tie(rep, rng):
                         probs.append("parameter %d type `%s` became `%s`" % (i, t, gty[i]))
                 if len(set(got)) != len(got):
                     probs.append("distinct parameters share an identifier: %s" % got)
+        nfound += 1 if probs else 0
+        if (probs and nfound > 8) or (not probs and bad - nfound > 5):
+            continue
         rep.violation("flatten_%d" % k, {"what": probs or ["model (Gen/Flatten.v live_args) and get_live_args_and_sig disagree; the oracle holds on the real output (model drift)"],
                                          "input": jobs[k][1][1], "expected": [wcls, want], "observed": [gcls, got] if got is not None else [cls] + [f[:300] for f in fields],
                                          "theorem": "correspondence of C07_flatten_positions / C07_flatten_names / C07_flatten_total / C07_distinct_or_diag with the crate"}, found=bool(probs))
